@@ -751,7 +751,7 @@ var expectedProbes = map[string][]string{
 	"C06": {"reports", "ticks_sent"},
 	"C07": {"ranges", "ranges_overlapped", "ranges_quiet"},
 	"C08": {"grows", "shrinks"},
-	"C13": {"cond_wait", "grows", "shrinks"},
+	"C13": {"cond_wait", "grows", "shrinks", "stalls_resumed"},
 	"C16": {"stall_fired", "reads_behind_stall"},
 }
 
